@@ -428,7 +428,7 @@ fn run_kind<K: KindInternals>(rep: &mut Report, cfg: &Cfg) {
     CANONICAL_KEY.store(false, std::sync::atomic::Ordering::SeqCst);
     let secs = t0.elapsed().as_secs_f64();
     let mut sr = serde_json::Value::Null;
-    if out.capped.is_none() && out.bad.is_empty() && (cfg.stateright == 2 || (cfg.stateright == 1 && (K::NAME == "Ietf" || K::NAME == "ChaCha20"))) {
+    if out.capped.is_none() && out.bad.is_empty() && cfg.stateright >= 1 && (K::NAME == "Ietf" || K::NAME == "ChaCha20" || (cfg.stateright == 2 && K::NAME == "XChaCha8")) {
         // independent engine + determinism, always with the exact key: stateright with 16 worker
         // threads (thorough: also with 1) against the own BFS on the same system (quick: a 2-block
         // window system, so that it stays cheap)
